@@ -11,6 +11,15 @@ NA = {
 }
 
 CLAIMS = {
+ "C04": dict(design="§2 C04", technique="exhaustive field classification + SSA data-flow (transfer) matching Save<->Load + gob type walk + E-EFF purity",
+   text="Structural half of resumability, for every save point: each GraphIterator/searchGraph field is classified (an unclassified field fails), every saved field flows iterator->record in Save and record->iterator in Load (graph restored field by field), cache fields are only ever nil after Load, every record field is exported and gob-encodable, Save writes nothing reachable from the iterator and the loaded iterator does not keep the reader. Does not decide equality of the resumed sequence.",
+   note="encoding/gob round-trips exported fields; the scratch/cache classification table is trusted beyond its one-line reasons."),
+ "C12": dict(design="§2 C12", technique="CFG path rules on go/ssa (no write before error return; cut-set of order-check edges) + E-PROVE lifted precondition at call sites + E-EFF purity / who-writes",
+   text="Decides: a rejected Add leaves the builder untouched (no receiver write on any path to an error return), the order check cannot be bypassed and admits neither duplicates nor smaller words (cut-set over bytes.Compare edge values), replaceOrRegister is never called on a childless node (precondition len(links)>=1 proved at all call sites), and queries never write the automaton. Does not decide accepted language, minimality or ranks.",
+   note="bytes.Compare in {-1,0,1}; E-EFF may-write summaries; lazy Initialise is the one named exception."),
+ "C13": dict(design="§2 C13", technique="E-EFF write summaries with module-restricted CHA for Searcher calls; per-instruction write attribution inside Search",
+   text="Decides the structural part of 'a search leaves the Dawg unchanged and only Step/Backstep change a searcher': Search writes nothing reachable from the Dawg; AllowStep/AllowWord/Chosen of both searchers write nothing reachable from the receiver (including through shared slices of value receivers); inside Search only invoke Step/Backstep write searcher memory. Does not decide result set, order, ranks, or that Backstep undoes Step.",
+   note="Closed world: searchers are the module's two implementations."),
  "C15": dict(design="§2 C15", technique="typed-AST permutation-assignment rule (SWAP) + E-PROVE cell distinctness + E-EFF field-writer scan",
    text="Structural necessary condition, decided for all inputs: every store into the permutation iterators' state slices is an in-place permutation of cells, and only Next writes them, so every yielded value is a rearrangement of the initial multiset. Does not decide completeness, uniqueness or order.",
    note="Callers do not modify the slice returned by Value(); go/types + go/ssa faithful; E-EFF may-write summaries."),
